@@ -43,6 +43,8 @@ type UEmbV struct {
 	embHidden string
 }
 type UEmbP struct{ PProm string }
+type ULang string
+type UID int64
 
 type UOuter struct {
 	UEmbV
@@ -57,6 +59,8 @@ type UOuter struct {
 	MA     map[string]interface{}
 	MS     map[string]UInner
 	NilM   map[string]int
+	ML     map[ULang]string // named key types: a plain string / integer index has the key's kind but not its type
+	MID    map[UID]string
 	S      []string
 	SI     []UInner
 	NilS   []string
@@ -83,6 +87,7 @@ func newUOuter(withEmbP bool) *UOuter {
 		M: map[string]int{"k": 7, "Name": 9}, MI: map[int]string{7: "seven"},
 		MA: map[string]interface{}{"nilval": nil, "v": "mv", "in": UInner{Name: "ma-in"}},
 		MS: map[string]UInner{"e": {Name: "ms-e", N: 5}},
+		ML: map[ULang]string{"k": "lang-k", "Name": "", "e": "lang-e"}, MID: map[UID]string{7: "id-seven", 0: ""},
 		S:  []string{"s0", "s1"}, SI: []UInner{{Name: "si0", N: 3}}, A: [2]int{4, 5}, Str: "str",
 		I: UInner{Name: "iface"}, U8: 200, secret: "x",
 	}
@@ -104,7 +109,7 @@ type c06Step struct {
 	arg  string
 }
 
-var c06Fields = []string{"Promoted", "PProm", "Shadow", "In", "PIn", "NilIn", "PP", "M", "MI", "MA", "MS", "NilM", "S", "SI", "NilS", "SC", "A", "Str", "I", "NilI", "U8", "secret", "Nope", "Name", "N", "hidden", "k", "absent", "nilval", "v", "in", "e", "UEmbV", "ID", "Title", "Owner", "Mid", "Deepest", "Deepest2", "UL2", "UL3", "embHidden"}
+var c06Fields = []string{"Promoted", "PProm", "Shadow", "In", "PIn", "NilIn", "PP", "M", "MI", "MA", "MS", "NilM", "ML", "MID", "S", "SI", "NilS", "SC", "A", "Str", "I", "NilI", "U8", "secret", "Nope", "Name", "N", "hidden", "k", "absent", "nilval", "v", "in", "e", "UEmbV", "ID", "Title", "Owner", "Mid", "Deepest", "Deepest2", "UL2", "UL3", "embHidden"}
 
 func c06Steps() []c06Step {
 	var st []c06Step
